@@ -31,7 +31,7 @@ def readerVerdict (lim : Option Nat) (data : Bytes) (endErr : RErr) (t : Trace) 
     | none => data.length
   if !(d.isPrefixOf data) then "bad:corrupted:delivered bytes are not a prefix of the body"
   else if d.length > cap then "bad:beyond-limit:more than the limit was passed to the handler"
-  else if !stickyOK t then "bad:not-sticky:a Read after the error did not repeat it"
+  else if lim.isSome && !stickyOK t then "bad:not-sticky:a Read after the error did not repeat it"
   else match firstErr t with
     | none => "ok"
     | some e =>
